@@ -151,7 +151,6 @@ func c17OperatorSlowAPI(r *Run, c *Case, rng *Rng) {
 	})
 
 	ctx, cancel := context.WithCancel(context.Background())
-	defer cancel()
 	hd, td := filepath.Join(dir, "hooks"), filepath.Join(dir, "tmp")
 	op, err := shell_operator.VerifAssembleC01(ctx, fc.Client, hd, td, c17KubeMetrics, c17KubeMetrics)
 	for try := 0; err != nil && strings.Contains(err.Error(), "text file busy") && try < 10; try++ {
@@ -159,10 +158,12 @@ func c17OperatorSlowAPI(r *Run, c *Case, rng *Rng) {
 		op, err = shell_operator.VerifAssembleC01(ctx, fc.Client, hd, td, c17KubeMetrics, c17KubeMetrics)
 	}
 	if err != nil && strings.Contains(err.Error(), "text file busy") {
+		cancel()
 		c.Inconcl = "hook script busy (fork/exec race between parallel cases)"
 		return
 	}
 	if err != nil {
+		cancel()
 		c.Oracle("opflag what=assembled:" + strings.ReplaceAll(firstLine(err.Error()), " ", "_") + " ok=false")
 		return
 	}
@@ -178,7 +179,19 @@ func c17OperatorSlowAPI(r *Run, c *Case, rng *Rng) {
 			}
 		}
 		op.TaskQueues.Stop()
-		op.Stop()
+		// The operator's context is cancelled only once the main queue's worker has exited, i.e. no handler can be
+		// inside an informer's cache sync any more: a sync that is aborted by the cancellation reports through
+		// MonitorConfig.Logger, which nothing sets (nil dereference in resourceInformer.start — see notes/C17.md).
+		// Otherwise the informers of this case are left running.
+		deadline := time.Now().Add(10 * time.Second)
+		for time.Now().Before(deadline) {
+			if q := op.TaskQueues.GetMain(); q != nil && q.GetStatus() == "stop" {
+				op.Stop()
+				cancel()
+				break
+			}
+			time.Sleep(5 * time.Millisecond)
+		}
 		time.Sleep(10 * time.Millisecond)
 	}()
 	op.VerifC03Run(func(q *queue.TaskQueue) {
@@ -234,7 +247,8 @@ func c17OperatorSlowAPI(r *Run, c *Case, rng *Rng) {
 		return n
 	}
 	_ = os.WriteFile(filepath.Join(dir, "block-h1"), nil, 0o644)
-	if !tick(hooks[0].binds[0], wStepTimeout) || !waitFor(func() bool { return startsOf(hooks[0]) > 0 }, 30*time.Second) {
+	before := startsOf(hooks[0]) // its Synchronization runs, if any, are over: the main queue is past h1
+	if !tick(hooks[0].binds[0], wStepTimeout) || !waitFor(func() bool { return startsOf(hooks[0]) > before }, 30*time.Second) {
 		c.Inconcl = "hook h1 did not start within 30 s"
 		return
 	}
